@@ -165,7 +165,7 @@ static void check_file_against_model(Ctx &c, const std::string &name, const Save
 	    for (int q = 0; q < ports * ports; ++q) {
 		zc want = x.cell[f][q];
 		int r = q / ports, k = q % ports;
-		bool normalised = t.version == 1 && ptype != VPT_S && R != 1.0;
+		bool normalised = t.version == 1 && ptype != VPT_S;	// (also with R = 1: the saver still goes through an S copy renormalised to R)
 		if (t.version == 1) want = ts1_norm(ptype, r, k, R, want);
 		zc got = t.data[f][q];
 		bool ok = pair_matches(sp.form, t.raw[f][q].first, t.raw[f][q].second, want, dtol, sf.dprec);
@@ -181,11 +181,11 @@ static void check_file_against_model(Ctx &c, const std::string &name, const Save
 		    double atol = sf.dprec >= 1000 ? 1e-9 : std::max(1e-9, 0.6 * pow(10.0, 3 - std::max(sf.dprec, 3)));
 		    if (cond > 1e3) { c.count("probe.ts1_normalised_skipped_illconditioned"); continue; }
 		    double rel = 1.5 * dtol + 1e-13 * cond * cond + (sp.form == 0 ? 0 : atol * M_PI / 180);
-		    if (sp.form == 2) rel += 0.12 * dtol * fabs(20 * log10(std::abs(want)));	// p digits of the dB value
-		    ok = std::abs(got - want) <= rel * std::abs(want) + 1e-12 * nscale;
+		    if (sp.form == 2 && std::abs(want) > 0) rel += 0.12 * dtol * fabs(20 * log10(std::abs(want)));	// p digits of the dB value
+		    ok = std::abs(got - want) <= rel * std::abs(want) + (1e-12 + 1e-13 * cond * cond) * std::max(nscale, 1.0);	// (normalised values are ratios computed from S-parameters of order 1)
 		    if (ok) c.count("probe.ts1_normalised_to_rounding");
 		}
-		if (!ok) { bad(strf("f=%d cell(%d,%d): file %s, object %s (normalised for v1: %d)", f, r, k, hexz(got).c_str(), hexz(want).c_str(), t.version == 1)); return; }
+		if (!ok) { bad(strf("f=%d cell(%d,%d): file %s, object %s (normalised for v1: %d, reference %g)", f, r, k, hexz(got).c_str(), hexz(want).c_str(), t.version == 1, R)); return; }
 	    }
 	}
 	c.count(strf("probe.reader_ts%d_ok", t.version));
